@@ -574,7 +574,7 @@ def _part_alias(acc: _Acc, rng, scale, driver, scratch):
             impls.append(("handlerRaises", sts, (raised, imported, gen_names)))
             canon = [int(s) for s in sts if s.isdigit() and str(int(s)) == s]
             reqs.append(("raisedAliases", canon))
-            impls.append(("raisedAliases", canon, [x for s, x in zip([s for s in sts if s.isdigit() and not s.startswith("2")], raised)
+            impls.append(("raisedAliases", canon, [x for s, x in zip([s for s in sts if s.isdigit() and not s.startswith("2") and 400 <= int(s) < 600], raised)
                                                    if str(int(s)) == s]))
     # names of the codes returned by handlerRaises
     res = _drive(driver, reqs)
